@@ -51,6 +51,16 @@ class AbstractContainer(abstract.GeomdlBase):
         self._delta = [float(self._dinit) for _ in range(self._pdim)]  # evaluation delta
         self._elements = []  # list of elements contained
         self._vis_component = None  # visualization component
+        self.init_cache()
+
+    def __deepcopy__(self, memo):
+        # The parent method does not copy the cache: re-create its entries
+        result = super(AbstractContainer, self).__deepcopy__(memo)
+        result.init_cache()
+        return result
+
+    def init_cache(self):
+        """ Initializes the cache. """
         self._cache['evalpts'] = []
 
     def __iter__(self):
@@ -491,10 +501,14 @@ class SurfaceContainer(AbstractContainer):
         self._pdim = 2  # number of parametric dimensions
         self._dinit = 0.05  # evaluation delta
         super(SurfaceContainer, self).__init__(*args, **kwargs)
-        self._cache['vertices'] = []
-        self._cache['faces'] = []
         for arg in args:
             self.add(arg)
+
+    def init_cache(self):
+        """ Initializes the cache. """
+        super(SurfaceContainer, self).init_cache()
+        self._cache['vertices'] = []
+        self._cache['faces'] = []
 
     @property
     def delta_u(self):
